@@ -125,6 +125,8 @@ type VC struct {
 	loopDirect map[types.Object]bool // variables directly assigned in the loop being entered
 	pureAx     map[string]bool
 	repFacts   map[string]bool
+	loopStack  []*loopRun
+	inValInv   bool
 	symCache   [][]string
 	symMu      sync.Mutex
 	pcTab      *pcDefTable
@@ -241,6 +243,18 @@ func (vc *VC) rangeFacts(x Term, t types.Type, depth int) Term {
 		for _, f := range si.Fields {
 			ft := Term{fmt.Sprintf("(%s.%s %s)", x.Sort, f.Name, x.S), f.Sort, f.T}
 			fs = append(fs, vc.rangeFacts(ft, f.T, depth+1))
+		}
+		// representation invariant of the struct type (`valinv`): holds for every
+		// value that was not built by the function under verification itself
+		if n, ok := t.(*types.Named); ok && n.Obj().Pkg() != nil && depth <= 1 && !vc.inValInv {
+			for _, ti := range vc.w.cs.ValInvs {
+				if ti.Pkg == n.Obj().Pkg().Path() && ti.Type == n.Obj().Name() {
+					vc.inValInv = true
+					env := &SpecEnv{vc: vc, vars: map[string]Value{}, old: map[string]Value{}, bound: map[string]Term{"self": x}, pkg: ti.Pkg}
+					fs = append(fs, vc.specBool(ti.Clause.Expr, env))
+					vc.inValInv = false
+				}
+			}
 		}
 		return tAnd(fs...)
 	case *types.Slice:
